@@ -71,3 +71,78 @@ def q_uf(ex, args, kwargs):
 
 
 _seqspec.SPEC_FORMS[C.uf] = q_uf
+
+
+class SymKeyDict(C.T):
+    """a dict with a concrete spine of n entries under *symbolic, pairwise distinct* keys of type key_t (the same
+    construction as pyvc.ext_c20.ConcDict, repeated here so that the C19 files need not import the C20 extensions, which
+    also change f-string evaluation): lookups / stores case-split over the entries (models.dict_find)"""
+
+    def __init__(self, key_t, val_t, n=0):
+        self.key_t, self.val_t, self.n = key_t, val_t, n
+
+    def fresh(self, cfg, path, hint):
+        from .models import wrap_key
+        from .values import DObj
+
+        keys = [cfg.fresh(path, self.key_t, f'{hint}.k{i}') for i in range(self.n)]
+        for i in range(self.n):
+            for j in range(i):
+                path.add_def(keys[i].t != keys[j].t)  # dict keys are distinct
+        return path.alloc(DObj({wrap_key(k): cfg.fresh(path, self.val_t, f'{hint}.v{i}') for i, k in enumerate(keys)}))
+
+
+# ---------------------------------------------------------------------------
+# `modifies` entries may index a list with a concrete spine by a constant: 'self.local_endpoints[0].stream'
+# (a field of an object held in a list).  Anything else with a subscript stays Unsupported.
+# ---------------------------------------------------------------------------
+import ast as _ast  # noqa: E402
+
+from . import vcgen as _V  # noqa: E402
+from .values import LObj as _LObj, Obj as _Obj, Ref as _Ref  # noqa: E402
+
+_orig_loc = _V.Config._loc
+
+
+def _subst_subscripts(path, node, env, binds):
+    """replace every `<expr>[<int constant>]` by a fresh name bound to that list element"""
+
+    def ev(n):
+        if isinstance(n, _ast.Name):
+            if n.id == 'ghost':
+                return path.ghost
+            if n.id in binds:
+                return binds[n.id]
+            if n.id not in env:
+                raise _V.Unsupported(f'modifies: unknown name {n.id}')
+            return env[n.id]
+        if isinstance(n, _ast.Attribute):
+            o = ev(n.value)
+            if isinstance(o, _Ref) and isinstance(path.obj(o), _Obj):
+                return path.obj(o).fields.get(n.attr)
+            raise _V.Unsupported(f'modifies: cannot resolve {_ast.unparse(n)}')
+        if isinstance(n, _ast.Subscript) and isinstance(n.slice, _ast.Constant) and type(n.slice.value) is int:
+            o = ev(n.value)
+            if isinstance(o, _Ref) and isinstance(path.obj(o), _LObj) and path.obj(o).items is not None and 0 <= n.slice.value < len(path.obj(o).items):
+                return path.obj(o).items[n.slice.value]
+            raise _V.Unsupported(f'modifies: {_ast.unparse(n)} is not an element of a list with a concrete spine')
+        raise _V.Unsupported(f'modifies: unsupported form {_ast.unparse(n)}')
+
+    class Tr(_ast.NodeTransformer):
+        def visit_Subscript(self, n):
+            name = f'__elem{len(binds)}'
+            binds[name] = ev(n)
+            return _ast.copy_location(_ast.Name(id=name, ctx=_ast.Load()), n)
+
+    return Tr().visit(node)
+
+
+def _loc(self, path, node, env, out, star):
+    if any(isinstance(x, _ast.Subscript) for x in _ast.walk(node)):
+        binds = {}
+        node = _subst_subscripts(path, node, env, binds)
+        env = dict(env, **binds)
+    return _orig_loc(self, path, node, env, out, star)
+
+
+_V.Config._loc = _loc
